@@ -82,11 +82,30 @@ fn case(rep: &mut Report, seed: u64, index: u64, table: &mut BTreeMap<String, St
         let mut gen = DomGen::xml();
         gen.max_nodes = 12;
         let mut s = gen.tree(&mut r);
+        if r.chance(1, 3) {
+            // several instances of one class whose Content property names different instances: the binary
+            // reader and writer carry the object referents of a column in a side list, one entry per such instance
+            let k = 2 + r.below(3);
+            let n0 = s.nodes.len();
+            let (class, prop) = *r.pick(&[("ImageLabel", "ImageContent"), ("MeshPart", "MeshContent"), ("Decal", "TextureContent")]);
+            for i in 0..k {
+                let id = s.add(0, class, &format!("obj{}", i));
+                let t = if r.chance(1, 5) { spec::RefT::Null } else { spec::RefT::Node(r.below(n0 + k)) };
+                s.nodes[id].props.push((prop.to_owned(), PV::ContentObj(t)));
+            }
+        }
+        s
+    };
+    // rbx_xml cannot write Content values that hold an object reference (known finding of C02)
+    let spec_xml = {
+        let mut s = spec.clone();
         for n in s.nodes.iter_mut() {
             n.props.retain(|(_, pv)| !matches!(pv, PV::ContentObj(_)));
         }
         s
     };
+    let spec_bin = spec;
+    let spec = &spec_bin;
     let sel: Vec<usize> = spec.nodes[0].children.clone();
     let replay = json!({"cmd": "c07", "seed": seed, "index": index});
     rep.evaluations += 1;
@@ -97,10 +116,14 @@ fn case(rep: &mut Report, seed: u64, index: u64, table: &mut BTreeMap<String, St
     }
     rep.sample(json!({"index": index, "nodes": spec.nodes.len(), "props": nprops, "multi_spelling": multi}));
     for fmt in FORMATS {
+        let spec = if *fmt == "xml" { &spec_xml } else { &spec_bin };
+        if spec.nodes.iter().any(|n| n.props.iter().any(|(_, pv)| matches!(pv, PV::ContentObj(_)))) {
+            rep.count("cases.with-content-object-refs");
+        }
         let mut first: Option<(BuildMode, Result<Vec<u8>, String>)> = None;
         for mode in ALL_BUILD_MODES {
             let mut br = Rng::derive(seed ^ 0x5eed, "c07-build", index * 16 + *mode as u64);
-            let built = spec::build(&spec, *mode, &mut br);
+            let built = spec::build(spec, *mode, &mut br);
             let roots: Vec<Ref> = sel.iter().map(|i| built.refs[*i]).collect();
             rep.count(&format!("constructions.{:?}", mode));
             let out = match catch(|| write(fmt, &built.dom, &roots)) {
